@@ -14,7 +14,7 @@ from .. import impl
 # pc paragraph former that is a control word
 ELEMS = {
     'sp': (' ', 'w'), 'nl': ('\n', 'w'), 'bl': ('\n\n', 'w'), 'sp2': ('  ', 'w'), 'nli': ('\n  ', 'w'),
-    'blb': ('\n \n', 'w'), 'tab': ('\t', 'w'),
+    'blb': ('\n \n', 'w'), 'tab': ('\t', 'w'), 'blt': ('\n\t\n', 'w'),
     'label': ('\\label{k}', 'v'), 'index': ('\\index{k}', 'v'), 'xxx': ('\\xxx', 'c'), 'yyy': ('\\yyy{}', 'v'),
     'grp': ('{}', 'v'), 'cmt': ('% c\n', '%'), 'ltskip': ('\\LTskip{q}', 'v'),
     'skipreg': ('%%% LT-SKIP-BEGIN\nq\n%%% LT-SKIP-END\n', '%'), 'tikz': ('\\begin{tikzpicture}q\\end{tikzpicture}', 'v'),
@@ -36,6 +36,10 @@ def flat(gap):
 PRE = ['', '\\label{k}\n', '% c\n', '\n', '\\xxx ', '{}']
 POST = ['\n', '', '\n\\label{k}\n', ' % c', '\n\n', '\\xxx']
 WS = ' \t\n'
+# words inside the kept argument of a macro / a group, with white space next to the delimiters
+WRAPS = [('\\textcolor{red}{', '}'), ('\\LTadd{', '}'), ('\\framebox[w][c]{', '}'), ('\\mq{', '}'), ('\\xxx{', '}'), ('{', '}'),
+         ('\\begin{uenv}', '\\end{uenv}'), ('\\footnote{', '}')]
+WRAP_WS = ['', ' ', '\n', '\n  ', ' \n']
 
 
 def relation(gap):
@@ -71,6 +75,10 @@ def relation(gap):
 
 
 def build(case):
+    if case[0] == 'wrap':
+        _, wi, a, b, c, d = case
+        o, cl = WRAPS[wi]
+        return ('\\newcommand{\\mq}[1]{#1}\n' if 'mq' in o else '') + 'Waaq' + WRAP_WS[a] + o + WRAP_WS[b] + 'Wabq' + WRAP_WS[c] + cl + WRAP_WS[d] + 'Wacq\n'
     pre, gaps, post = case
     words = ['Waaq', 'Wabq', 'Wacq']
     s = PRE[pre] + words[0]
@@ -94,13 +102,23 @@ class C05:
 
     def bounds(self, tier):
         return {'gap_alphabet': dict({k: v[0] for k, v in ELEMS.items()}, **{k: ''.join(ELEMS[x][0] for x in v) for k, v in COMPOSITES.items()}), 'max_gap_len': 3 if tier == 'quick' else 4,
-                'two_gaps': 'gap1 <= 2, gap2 <= 1' if tier == 'quick' else 'both <= 2', 'pre': PRE, 'post': POST}
+                'words_inside_kept_arguments': '%d wrappers x %d^4 white-space layouts' % (len(WRAPS), len(WRAP_WS)), 'two_gaps': 'gap1 <= 2, gap2 <= 1' if tier == 'quick' else 'both <= 2', 'pre': PRE, 'post': POST}
 
     def cases(self, tier, seed):
         # a control word glued to the following word would be a different control word
         for c in self.all_cases(tier):
             if not any(g and ELEMS[flat(g)[-1]][1] in ('c', 'pc') for g in c[1]):
                 yield c
+        yield from self.wrap_cases()
+
+    def wrap_cases(self):
+        n = len(WRAP_WS)
+        for wi in range(len(WRAPS)):
+            for a in range(n):
+                for b in range(n):
+                    for c in range(n):
+                        for d in range(n):
+                            yield ['wrap', wi, a, b, c, d]
 
     def all_cases(self, tier):
         L = 3 if tier == 'quick' else 4
@@ -121,7 +139,36 @@ class C05:
                     for g2 in itertools.product(NAMES, repeat=k2):
                         yield [0, [list(g1), list(g2)], 0]
 
+    def judge_wrap(self, case):
+        _, wi, a, b, c, d = case
+        src = build(case)
+        o = impl.run_filter(src, {'pack': '*', 'lang': 'en'})
+        if o.kind != 'ok':
+            return {'viol': [{'clause': 'returns', 'sig': 'C05:no-result:' + o.kind, 'detail': {'source': src, 'info': o.info}}], 'out': o.info, 'nt': True, 'tr': 1}
+        plain = o.result[0]
+        viol = []
+        foot = 'footnote' in WRAPS[wi][0]
+        pairs = [('Waaq', 'Wacq', WRAP_WS[a] + WRAP_WS[d])] if foot else [('Waaq', 'Wabq', WRAP_WS[a] + WRAP_WS[b]), ('Wabq', 'Wacq', WRAP_WS[c] + WRAP_WS[d])]
+        for w1, w2, ws in pairs:
+            i, j = plain.find(w1), plain.find(w2)
+            if i < 0 or j < i:
+                viol.append({'clause': 'both words survive in order', 'sig': 'C05:wrap:word-lost', 'detail': {'source': src, 'plain': plain}})
+                break
+            between = plain[i + 4:j]
+            tag = WRAPS[wi][0][:10]
+            if between.strip(WS):
+                viol.append({'clause': 'only white space between the words', 'sig': 'C05:wrap:text-between:' + tag, 'detail': {'source': src, 'plain': plain}})
+            elif re.search(r'\n[ \t]*\n', between):
+                viol.append({'clause': 'no paragraph break invented (delimiter of a kept argument alone on its line)',
+                             'sig': 'C05:wrap:par-invented:' + tag, 'detail': {'source': src, 'plain': plain, 'between': between}})
+            elif ws and between == '':
+                viol.append({'clause': 'words separated by white space that counts stay separated', 'sig': 'C05:wrap:glued:' + tag,
+                             'detail': {'source': src, 'plain': plain}})
+        return {'viol': viol, 'out': plain, 'nt': True, 'tr': 1, 'cnt': {'evaluations': len(pairs)}}
+
     def judge(self, case):
+        if case[0] == 'wrap':
+            return self.judge_wrap(case)
         src = build(case)
         o = impl.run_filter(src, {'pack': '*', 'lang': 'en'})
         if o.kind != 'ok':
@@ -163,6 +210,8 @@ class C05:
         return '+'.join(kinds[:2]) or 'ws'
 
     def explain(self, case):
+        if case[0] == 'wrap':
+            return 'source %r' % build(case)
         return 'source %r\nrelations %r' % (build(case), [relation(g) for g in case[1]])
 
 
